@@ -12,7 +12,7 @@ import (
 
 func init() {
 	register("C29", func(r *Report) {
-		r.Explanation = "Decides linearizability of each individual call structurally: (R1) every access of IDSequence's counter fields happens with the sequence's mutex held (lockset), bounds are written only in the constructor, no method leaks a field address; (R2) every access of TransactionStore's two maps happens with the store's lock held - in write mode for map updates and deletes, at least read mode for lookups -, the maps never escape, and each method performs one map operation per critical section; (R3) ClientState is only accessed through sync/atomic operations; (R4) the loop-free body of IDSequence.Next evaluated (constant propagation with uint16 wrap-around) at the boundary valuations of its cells returns the current value, reports the stored overflow flag, advances by one and wraps max -> min with the flag set - for ranges including max = 0xFFFF. Not decided: the sequential specification beyond those boundary valuations."
+		r.Explanation = "Decides linearizability of each individual call structurally: (R1) every access of IDSequence's counter fields happens with the sequence's mutex held (lockset), bounds are written only in the constructor, no method leaks a field address; (R2) every access of TransactionStore's two maps happens with the store's lock held - in write mode for map updates and deletes, at least read mode for lookups -, the maps never escape, and each method performs one map operation per critical section; (R3) ClientState is only accessed through sync/atomic operations; (R4) the loop-free body of IDSequence.Next evaluated (constant propagation with uint16 wrap-around) at the boundary valuations of its cells returns the current value, reports the stored overflow flag, advances by one and wraps max -> min with the flag set - for ranges including max = 0xFFFF. (R5) the store's two key spaces are independent: each map is used by one family of methods only (by message ID / by packet type) and keyed by the parameter, or, if a map is shared, the keys the two families compute are disjoint over the whole parameter domains (evaluated exhaustively: 65536 IDs x 256 types). Not decided: the sequential specification beyond those boundary valuations."
 		r.floor("R1", 4)
 		r.floor("R2", 6)
 		r.floor("R3", 1)
@@ -286,6 +286,8 @@ func checkC29(c *Ctx, r *Report) {
 			}
 		})
 	}
+	// R5: the by-ID and by-type key spaces are independent
+	c.checkStoreKeySpaces(r, "R5")
 	// R3: ClientState only through atomics
 	n3 := 0
 	bad3 := ""
